@@ -37,6 +37,8 @@ static int model_decode(const std::string &s, std::vector<unsigned char> &out, s
     return hi >= 0 ? -1 : (int)out.size();
 }
 
+static void cpp_vs_c(const std::string &s, const char *cls);
+
 /* run the C decoder on exact buffers; compares with the model */
 static void decode_check(const std::string &s, size_t outlen, const char *cls)
 {
@@ -123,10 +125,30 @@ static void case_roundtrip(uint64_t idx)
         ascon::byte_array d1 = ascon::bytes_from_hex(h1.c_str(), h1.size()), d2 = ascon::bytes_from_hex(h1.c_str()), d3 = ascon::bytes_from_hex(h1);
         ascon::byte_array d4 = ascon::bytes_from_data(in, n);
         if (d1 != ba || d2 != ba || d3 != ba) vf_violation("C20", "hex:cpp:bytes_from_hex-roundtrip", "\"n\":%zu,\"sizes\":\"%zu %zu %zu\"", n, d1.size(), d2.size(), d3.size());
+        if (h1 != std::string(hex, 2 * n) || h2 != h1) vf_violation("C17", "cpp:bytes_to_hex:differs-from-C", "\"n\":%zu", n);
+        cpp_vs_c(h1, "roundtrip");
         if (d4 != ba) vf_violation("C20", "hex:cpp:bytes_from_data", "\"n\":%zu", n);
     }
     vf_distinct("roundtrip|n%s|%s", n == 0 ? "0" : n < 16 ? "<16" : n < 256 ? "<256" : "big", upper ? "upper" : "lower");
     gfree(in); gfree(hex);
+}
+
+/* C17: the C++ helpers must return exactly what the C functions return for the same input */
+static void cpp_vs_c(const std::string &s, const char *cls)
+{
+    std::vector<unsigned char> buf(s.size() / 2 + 2);
+    int r = ascon_bytes_from_hex(buf.data(), buf.size(), s.data(), s.size());
+    ascon::byte_array want;
+    char key[96];
+    if (r > 0) want = ascon::byte_array(buf.begin(), buf.begin() + r);
+    ascon::byte_array d1 = ascon::bytes_from_hex(s.data(), s.size()), d3 = ascon::bytes_from_hex(s);
+    if (d1 != want) { snprintf(key, sizeof(key), "cpp:bytes_from_hex(ptr,len):differs-from-C:%s", cls); vf_violation("C17", key, "\"in\":\"%s\",\"c_result\":%d,\"cpp_size\":%zu", vf_h((const uint8_t *)s.data(), s.size()), r, d1.size()); }
+    if (d3 != want) { snprintf(key, sizeof(key), "cpp:bytes_from_hex(string):differs-from-C:%s", cls); vf_violation("C17", key, "\"in\":\"%s\",\"c_result\":%d,\"cpp_size\":%zu", vf_h((const uint8_t *)s.data(), s.size()), r, d3.size()); }
+    if (s.find('\0') == std::string::npos) {
+        ascon::byte_array d2 = ascon::bytes_from_hex(s.c_str());
+        if (d2 != want) { snprintf(key, sizeof(key), "cpp:bytes_from_hex(ptr):differs-from-C:%s", cls); vf_violation("C17", key, "\"in\":\"%s\",\"c_result\":%d,\"cpp_size\":%zu", vf_h((const uint8_t *)s.data(), s.size()), r, d2.size()); }
+    }
+    vf_count("cpp_helper_vs_c_comparisons", 1);
 }
 
 static void case_grammar(uint64_t idx)
@@ -149,8 +171,9 @@ static void case_grammar(uint64_t idx)
             if (d2 != want) vf_violation("C20", "hex:cpp:bytes_from_hex(ptr):not-exact", "\"size\":%zu,\"want\":%zu", d2.size(), want.size());
         }
     }
+    cpp_vs_c(s, "whitespace");
     /* odd digit count */
-    { std::string o = s + "a"; decode_check(o, n + 2, "odd-digits"); if (!ascon::bytes_from_hex(o).empty()) vf_violation("C20", "hex:cpp:invalid-not-empty", "\"kind\":\"odd\""); }
+    { std::string o = s + "a"; cpp_vs_c(o, "odd"); decode_check(o, n + 2, "odd-digits"); if (!ascon::bytes_from_hex(o).empty()) vf_violation("C20", "hex:cpp:invalid-not-empty", "\"kind\":\"odd\""); }
     vf_distinct("grammar|n%s|ws%s", n == 0 ? "0" : n < 8 ? "<8" : ">=8", s.size() > 2 * n ? "y" : "n");
 }
 
@@ -170,6 +193,9 @@ static void case_badchars(uint64_t idx)
             if (pos < t.size()) { t[pos] = (char)ch; decode_check(t, n, "replace-any-byte"); }
             if (hexval(ch) < 0 && !(ch && strchr(WS, ch))) {
                 if (!ascon::bytes_from_hex(s.data(), s.size()).empty()) vf_violation("C20", "hex:cpp:invalid-not-empty", "\"char\":%d,\"pos\":%zu", ch, pos);
+                /* the std::string overload sees the whole string, an embedded NUL included */
+                if (!ascon::bytes_from_hex(s).empty()) vf_violation("C20", "hex:cpp:invalid-not-empty:string-overload", "\"char\":%d,\"pos\":%zu,\"size\":%zu", ch, pos, ascon::bytes_from_hex(s).size());
+                if (ch == 0 || (pos + ch) % 17 == 0) cpp_vs_c(s, "invalid");
             }
         }
     }
